@@ -383,6 +383,7 @@ pub struct ListEnv {
     pub base: Arc<BaseImage>,
     pub root_block: u32,
     pub vol: refat::Vol,
+    pub fat: Vec<u32>,
 }
 
 pub fn list_env() -> ListEnv {
@@ -393,6 +394,23 @@ pub fn list_env() -> ListEnv {
     let vol = refat::locate(&base, 0).unwrap();
     ListEnv {
         root_block: vol.lba + vol.root_start,
+        fat: refat::read_fat(&base, &vol, 0),
+        vol,
+        base: Arc::new(base),
+    }
+}
+
+/// The same on FAT32 (the crate has a separate code path per FAT type): a two-cluster root at clusters 2, 3.
+pub fn list_env32() -> ListEnv {
+    let g = scen::g_v32a();
+    let mut mk = Mk::new(g);
+    let root = mk.root();
+    mk.extend_dir(root, &[3]);
+    let base = mk.finish(FsInfo::Correct);
+    let vol = refat::locate(&base, 0).unwrap();
+    ListEnv {
+        root_block: vol.cluster_block(2),
+        fat: refat::read_fat(&base, &vol, 0),
         vol,
         base: Arc::new(base),
     }
@@ -474,9 +492,8 @@ fn check_listing(env: &ListEnv, slots: &[[u8; 32]], bufsize: usize, arbitrary: b
     }
     let Some(listed) = listed else { return out };
     // reference
-    let fat = refat::read_fat(&img, &env.vol, 0);
-    let (rs, _, _) = refat::dir_slots(&img, &env.vol, &fat, refat::DirLoc::Root16);
-    let ents = refat::live_entries(&rs, false);
+    let (rs, _, _) = refat::dir_slots(&img, &env.vol, &env.fat, refat::root_loc(&env.vol));
+    let ents = refat::live_entries(&rs, env.vol.fat32);
     if ents.len() != listed.len() || ents.iter().zip(listed.iter()).any(|(e, l)| e.name != l.name) {
         out.push(v(
             "lfn-listing/entries-differ",
@@ -596,6 +613,7 @@ fn listing_sweep(tier: &str) -> (Vec<Violation>, u64, u64) {
     for len in 1..=maxlen {
         let parts = par_ranges(k.pow(len), 64, |a, b| {
             let env = list_env();
+            let env32 = if len < maxlen { Some(list_env32()) } else { None };
             let mut bad = Vec::new();
             let mut named = 0u64;
             for x in a..b {
@@ -607,6 +625,13 @@ fn listing_sweep(tier: &str) -> (Vec<Violation>, u64, u64) {
                 }
                 for x in check_listing(&env, &slots, 780, false) {
                     push_unique(&mut bad, Some(x));
+                }
+                if let Some(e32) = &env32 {
+                    for mut x in check_listing(e32, &slots, 780, false) {
+                        x.sig = format!("{}/fat32", x.sig);
+                        x.input.as_mut().map(|i| i["fat32"] = json!(true));
+                        push_unique(&mut bad, Some(x));
+                    }
                 }
                 // vacuity counter: sequences containing a start fragment followed later by a short entry
                 if slots.iter().any(|s| s[11] == 0x0F && s[0] & 0x40 != 0) && slots.last().map(|s| s[11] != 0x0F).unwrap_or(false) {
@@ -747,7 +772,8 @@ pub fn replay_input(inp: &Value) -> i32 {
                         .collect()
                 })
                 .unwrap_or_default();
-            check_listing(&list_env(), &slots, inp["buf"].as_u64().unwrap_or(780) as usize, inp["arbitrary"].as_bool().unwrap_or(false))
+            let env = if inp["fat32"].as_bool() == Some(true) { list_env32() } else { list_env() };
+            check_listing(&env, &slots, inp["buf"].as_u64().unwrap_or(780) as usize, inp["arbitrary"].as_bool().unwrap_or(false))
         }
         _ => return 2,
     };
